@@ -7,7 +7,7 @@ class C11(SCheck):
     prop = "C11"
     level = "exploration"
     default_seed = 11011
-    N = {"quick": 200, "thorough": 5000}
+    N = {"quick": 400, "thorough": 5000}
     K = {"quick": 2, "thorough": 4}
     technique = "deterministic simulation: seeded schedules x emulated FIEMAP paging variants (split, rounded, flagged, physically packed extents) x per-call kernel limit x copy_file_range absent, snapshot oracle on st_blocks and the SEEK_DATA/SEEK_HOLE map"
     rule = ("case = sparse files (holes >= 1 MiB, apparent size up to 256 MiB, 0..100 data runs so that FIEMAP needs several 32-extent pages; "
